@@ -351,6 +351,110 @@ Proof.
     rewrite E. apply IH; [exact Hb|lia|exact H1].
 Qed.
 
+(* what a failing import leaves behind: exactly the complete batches in front of the first bad record *)
+
+Definition bad_at (ncols : nat) (st : ist) (rec : record) : Prop :=
+  negb (Nat.eqb (List.length rec) ncols) = true \/ prepare_record hashf rec st = None.
+
+Lemma import_recs_app : forall ncols g1 g2 st,
+  import_recs hashf ncols (g1 ++ g2) st =
+  match import_recs hashf ncols g1 st with
+  | Ok (r1, st1) => match import_recs hashf ncols g2 st1 with
+                    | Ok (r2, st2) => Ok (r1 ++ r2, st2)
+                    | Err => Err
+                    end
+  | Err => Err
+  end.
+Proof.
+  induction g1 as [|rec g1 IH]; intros g2 st.
+  - simpl. destruct (import_recs hashf ncols g2 st) as [[r2 st2]|]; reflexivity.
+  - simpl. destruct (negb (Nat.eqb (List.length rec) ncols)); [reflexivity|].
+    destruct (prepare_record hashf rec st) as [r|]; [|reflexivity].
+    rewrite IH. destruct (import_recs hashf ncols g1 (next_ist st r)) as [[r1 st1]|]; [|reflexivity].
+    destruct (import_recs hashf ncols g2 st1) as [[r2 st2]|]; reflexivity.
+Qed.
+
+Lemma import_recs_idx : forall ncols recs st rows st',
+  import_recs hashf ncols recs st = Ok (rows, st') -> i_idx st' = i_idx st + Z.of_nat (List.length rows).
+Proof.
+  induction recs as [|rec recs IH]; intros st rows st' H; simpl in H.
+  - injection H as Hr Hs. rewrite <- Hr, <- Hs. simpl. lia.
+  - destruct (negb (Nat.eqb (List.length rec) ncols)); [discriminate|].
+    destruct (prepare_record hashf rec st) as [r|]; [|discriminate].
+    destruct (import_recs hashf ncols recs (next_ist st r)) as [[rows1 st1]|] eqn:E; [|discriminate].
+    injection H as Hr Hs. rewrite <- Hr, <- Hs. rewrite (IH _ _ _ E). simpl i_idx. cbn [List.length]. lia.
+Qed.
+
+Lemma insert_headers_prefix : forall ncols g tail st acc rows st1,
+  import_recs hashf ncols g st = Ok (rows, st1) ->
+  insert_headers hashf ncols (List.length g) (g ++ tail) st acc = (true, st1, acc ++ rows, tail).
+Proof.
+  induction g as [|rec g IH]; intros tail st acc rows st1 H; simpl in H.
+  - injection H as Hr Hs. rewrite <- Hr, <- Hs. simpl. now rewrite app_nil_r.
+  - destruct (negb (Nat.eqb (List.length rec) ncols)) eqn:El; [discriminate|].
+    destruct (prepare_record hashf rec st) as [r|] eqn:Ep; [|discriminate].
+    destruct (import_recs hashf ncols g (next_ist st r)) as [[rows1 st2]|] eqn:E; [|discriminate].
+    injection H as Hr Hs. rewrite <- Hr, <- Hs.
+    cbn [List.length app insert_headers]. rewrite El, Ep.
+    rewrite (IH tail (next_ist st r) (acc ++ [r]) rows1 st2 E). now rewrite <- app_assoc.
+Qed.
+
+Lemma insert_headers_hits_bad : forall ncols g n bad rest st acc rows st1,
+  import_recs hashf ncols g st = Ok (rows, st1) -> (List.length g < n)%nat -> bad_at ncols st1 bad ->
+  fst (fst (fst (insert_headers hashf ncols n (g ++ bad :: rest) st acc))) = false.
+Proof.
+  induction g as [|rec g IH]; intros n bad rest st acc rows st1 H Hn Hbad; simpl in H.
+  - injection H as Hr Hs. subst st1. destruct n as [|n]; [simpl in Hn; lia|].
+    cbn [app insert_headers]. destruct Hbad as [Hb|Hb]; rewrite Hb; [reflexivity|].
+    destruct (negb (Nat.eqb (List.length bad) ncols)); reflexivity.
+  - destruct (negb (Nat.eqb (List.length rec) ncols)) eqn:El; [discriminate|].
+    destruct (prepare_record hashf rec st) as [r|] eqn:Ep; [|discriminate].
+    destruct (import_recs hashf ncols g (next_ist st r)) as [[rows1 st2]|] eqn:E; [|discriminate].
+    injection H as Hr Hs. subst st2.
+    destruct n as [|n]; [simpl in Hn; lia|].
+    cbn [app insert_headers]. rewrite El, Ep.
+    apply (IH n bad rest (next_ist st r) (acc ++ [r]) rows1 st1 E); [simpl in Hn; lia|exact Hbad].
+Qed.
+
+Theorem import_loop_leftovers : forall ncols bsz fuel g bad rest st t rows st1,
+  (0 < bsz)%nat -> import_recs hashf ncols g st = Ok (rows, st1) -> bad_at ncols st1 bad ->
+  (List.length (g ++ bad :: rest) < fuel)%nat ->
+  import_loop hashf ncols bsz fuel (g ++ bad :: rest) st t =
+  (Err, db_insert_all t (firstn (List.length rows / bsz * bsz) rows)).
+Proof.
+  induction fuel as [|fuel IH]; intros g bad rest st t rows st1 Hb H Hbad Hf; [lia|].
+  pose proof (import_recs_length _ _ _ _ _ H) as Hlen.
+  cbn [import_loop].
+  destruct (Nat.ltb (List.length g) bsz) eqn:Hlt.
+  - apply Nat.ltb_lt in Hlt.
+    pose proof (insert_headers_hits_bad ncols g bsz bad rest st [] rows st1 H Hlt Hbad) as Hi.
+    destruct (insert_headers hashf ncols bsz (g ++ bad :: rest) st []) as [[[ok stn] batch] rest'].
+    simpl in Hi. subst ok. cbn [negb].
+    rewrite Nat.div_small by lia. reflexivity.
+  - apply Nat.ltb_ge in Hlt.
+    rewrite <- (firstn_skipn bsz g) in H.
+    rewrite import_recs_app in H.
+    destruct (import_recs hashf ncols (firstn bsz g) st) as [[r1 stm]|] eqn:E1; [|discriminate].
+    destruct (import_recs hashf ncols (skipn bsz g) stm) as [[r2 st2]|] eqn:E2; [|discriminate].
+    injection H as Hr Hs. subst st2.
+    assert (Hl1 : List.length (firstn bsz g) = bsz) by (rewrite firstn_length; lia).
+    pose proof (insert_headers_prefix ncols (firstn bsz g) (skipn bsz g ++ bad :: rest) st [] r1 stm E1) as Hp.
+    rewrite Hl1 in Hp. rewrite <- (firstn_skipn bsz g) at 1. rewrite <- app_assoc, Hp. cbn [negb app].
+    pose proof (import_recs_idx _ _ _ _ _ E1) as Hidx.
+    pose proof (import_recs_length _ _ _ _ _ E1) as Hlr1. rewrite Hl1 in Hlr1.
+    assert (E : (i_idx stm =? i_idx st) = false) by (apply Z.eqb_neq; lia). rewrite E.
+    assert (Hf2 : (List.length (skipn bsz g ++ bad :: rest) < fuel)%nat).
+    { rewrite app_length in *. rewrite skipn_length. simpl in *. lia. }
+    rewrite (IH (skipn bsz g) bad rest stm (db_insert_all t r1) r2 st1 Hb E2 Hbad Hf2).
+    rewrite db_insert_all_app. f_equal. f_equal. rewrite <- Hr.
+    rewrite app_length, Hlr1.
+    replace (bsz + List.length r2)%nat with (1 * bsz + List.length r2)%nat by lia.
+    rewrite Nat.div_add_l by lia. rewrite Nat.mul_add_distr_r, Nat.mul_1_l.
+    set (k := (List.length r2 / bsz * bsz)%nat).
+    replace (bsz + k)%nat with (List.length r1 + k)%nat by lia.
+    symmetry. apply firstn_app_2.
+Qed.
+
 (* ------------------------------------------------------------------------------------------ *)
 (* the table                                                                                   *)
 
@@ -716,6 +820,39 @@ Proof.
     + apply Nat.eqb_neq in El. pose proof (refuses_wrong_count f' rows Hi El) as Hr.
       rewrite H in Hr. discriminate.
   - pose proof (refuses_unimportable f' Hi) as Hr. rewrite H in Hr. discriminate.
+Qed.
+
+(* --- the defect in general: the complete batches in front of the first bad record stay, and
+       the next start serves them whatever file it is given --- *)
+
+Lemma db_insert_all_nonempty : forall rows t, t <> [] -> db_insert_all t rows <> [].
+Proof.
+  induction rows as [|r rows IH]; intros t Ht; [exact Ht|].
+  rewrite db_insert_all_cons. apply IH. unfold db_insert.
+  destruct (has_hash t (x_hash (fst (mk r)))); [exact Ht|]. destruct t; discriminate.
+Qed.
+
+Theorem leftovers_served : forall hdr g bad rest rows st1,
+  import_recs hashf (List.length hdr) g ist0 = Ok (rows, st1) -> bad_at (List.length hdr) st1 bad ->
+  let left := db_insert_all [] (firstn (List.length rows / bsz * bsz) rows) in
+  start true [] (Some (hdr :: g ++ bad :: rest)) = (false, left) /\
+  ((bsz <= List.length rows)%nat -> left <> [] /\ forall f2, start true left f2 = (true, left)).
+Proof.
+  intros hdr g bad rest rows st1 H Hbad left. split.
+  - unfold start, startup, run_import.
+    rewrite (import_loop_leftovers (List.length hdr) bsz _ g bad rest ist0 [] rows st1 bsz_pos H Hbad
+               (Nat.lt_succ_diag_r _)).
+    reflexivity.
+  - intros Hle.
+    assert (Hne : left <> []).
+    { unfold left.
+      assert (Hk : (bsz <= List.length rows / bsz * bsz)%nat).
+      { assert (1 <= List.length rows / bsz)%nat by (apply Nat.div_le_lower_bound; lia). nia. }
+      destruct rows as [|r rows]; [simpl in Hle; lia|].
+      destruct (List.length (r :: rows) / bsz * bsz)%nat as [|k]; [lia|].
+      cbn [firstn]. rewrite db_insert_all_cons. apply db_insert_all_nonempty.
+      unfold db_insert. simpl. discriminate. }
+    split; [exact Hne|]. intros f2. unfold start, startup. destruct left; [congruence|reflexivity].
 Qed.
 
 (* --- a database that already holds headers is never overwritten by an import --- *)
